@@ -66,11 +66,12 @@ class _NotATty(io.StringIO):
         return False
 
 
-def run(argv, cwd=None, stdin_text=''):
+def run(argv, cwd=None, stdin_text='', fresh=True):
     """tally.cli.main() in this process.  Returns Result(exit code, stdout, stderr); an uncaught exception is reported the way
     the interpreter would (traceback on stderr, exit code 1)."""
     from tally import cli as tcli
-    obs.clear_caches()
+    if fresh:  # fresh=False: the command runs in the state the previous in-process command left (an embedding tool calling main() twice)
+        obs.clear_caches()
     for attr in ('_deprecated_parser_warnings',):
         v = getattr(tcli, attr, None)
         if isinstance(v, (set, list, dict)):
